@@ -25,7 +25,7 @@ def truth_of(vals, neg):
     return (vals != [0]) if vals is not None else (0 in (neg or []))
 
 
-MEMO_T = r'HashMap<u32, std::collections::HashMap<time::Date'
+MEMO_T = r'HashMap<u32, std::collections::HashMap<time::Date'      # re-bound in run(): also newtypes around the per-day map
 DAYMAP_T = r'HashMap<time::Date, '
 
 
@@ -53,6 +53,15 @@ def product_callers(prog, name):
 
 
 def run(prog, rep, tier='quick', config='default'):
+    # the per-year memo may hold the per-day map inside a private newtype (`struct RatesByDate(HashMap<Date, DailyRate>)`)
+    global MEMO_T
+    wrappers = []
+    for crate in prog.meta:
+        for a in prog.meta[crate].get('adts', []):
+            if a.get('kind') == 'Struct' and len(a['variants']) == 1 and len(a['variants'][0]['fields']) == 1 and \
+                    re.search(r'^std::collections::HashMap<time::Date, ', a['variants'][0]['fields'][0]['ty']):
+                wrappers.append(re.escape(a['name']))
+    MEMO_T = r'HashMap<u32, (std::collections::HashMap<time::Date' + ''.join('|' + w for w in wrappers) + ')'
     # ------------------------------------------------------------------ R13a
     dl_sites = [c for c in prog.all_calls() if c.decl == REMOTE_TRAIT + '::get_remote_usd_cad_rates' and 'testlib' not in c.fn.name]
     if not rep.anchor('call sites of RemoteRateLoader::get_remote_usd_cad_rates (dyn)', dl_sites):
@@ -80,7 +89,7 @@ def run(prog, rep, tier='quick', config='default'):
         # is this call confined to "year not memoised yet" / "year not downloaded in this run"?  Guard edges: the false edge of
         # contains_key(memo, year), the None edge of memo.get(year), the false edge of fresh_years.contains(year). Every path from
         # the function entry to the call must use one of them (edge cut), so after a download (memoised and fresh) it is unreachable.
-        MEMO_RX = r'HashMap<u32, std::collections::HashMap<time::Date'
+        MEMO_RX = MEMO_T
         keycall = None
         for x in c.fn.calls:
             if x.short in ('contains_key', 'get') and x.args and re.search(MEMO_RX, c.fn.ty.get(x.arg_local(0), '')):
@@ -90,7 +99,7 @@ def run(prog, rep, tier='quick', config='default'):
             # the memo test sits in a bool-valued helper (`if self.year_needs_load(year, date)`): the key is the helper's argument
             for hc in c.fn.calls:
                 h = prog.resolve(hc.callee, c.fn.crate)
-                if h is None or h.kind not in ('Fn', 'AssocFn') or h.ty.get(0) != 'bool':
+                if h is None or h.kind not in ('Fn', 'AssocFn') or not (h.ty.get(0) == 'bool' or mir._is_flag_enum(prog, c.fn.crate, h.ty.get(0, '') or '')):
                     continue
                 for x in h.calls:
                     if x.short in ('contains_key', 'get') and len(x.args) > 1 and re.search(MEMO_RX, h.ty.get(x.arg_local(0), '')):
@@ -116,7 +125,7 @@ def run(prog, rep, tier='quick', config='default'):
         rep.ok('R13a', 'download-guarded-by-year-memo', where=c.where(), fn=fn.name,
                detail='the chain %s is entered only over a "year not memoised" or "year not downloaded in this run" edge' % ' <- '.join(short(x.fn.name.split('::{')[0]) for x in chain))
         # after a successful fetch the same key is inserted before any return
-        ins = [x for x in fn.calls if x.short == 'insert' and re.search(r'HashMap<u32, std::collections::HashMap<time::Date', fn.ty.get(x.arg_local(0), ''))
+        ins = [x for x in fn.calls if x.short == 'insert' and re.search(MEMO_T, fn.ty.get(x.arg_local(0), ''))
                and fn.dominates(c.bb, x.bb)]
         same_key = False
         if ins:
@@ -148,7 +157,7 @@ def run(prog, rep, tier='quick', config='default'):
     if guard_site:
         c, ck = guard_site
         fn = c.fn
-        MEMO = r'HashMap<u32, std::collections::HashMap<time::Date'
+        MEMO = MEMO_T
         DAYMAP = r'HashMap<time::Date, '
         answers = []
         for x in fn.calls:
@@ -224,6 +233,33 @@ def run(prog, rep, tier='quick', config='default'):
                 if x.short == 'contains' and re.search(r'HashSet<u32', fn.ty.get(x.arg_local(0), '')):
                     accept.add((i, true_t))
                     reasons[(i, true_t)] = 'the year was downloaded during this run'
+        # the same two facts kept as the variant of a private flag enum computed by a helper (`match self.freshness(year) { Downloaded =>
+        # .. }`): the edges of a switch over that enum on which the helper's summary says "downloaded in this run" / "contains the date"
+        for i, b in fn.blocks.items():
+            tt = b['term']
+            if not tt or tt['t'] != 'switch' or not is_place(tt['discr']):
+                continue
+            dd = fn.single_def(tt['discr']['pl']['l'])
+            if not (dd and dd[2] == 'stmt' and dd[3]['r']['rv'] == 'discr'):
+                continue
+            po = mir.provenance(fn, {'k': 'copy', 'pl': dd[3]['r']['pl']})
+            hs = [x for x in po.calls if prog.resolve(x.callee, fn.crate) is not None and
+                  mir._is_flag_enum(prog, fn.crate, prog.resolve(x.callee, fn.crate).ty.get(0, '') or '')]
+            if len(hs) != 1:
+                continue
+            vc = mir.variant_cases(prog, prog.resolve(hs[0].callee, fn.crate), rate_atom)
+            if not vc:
+                continue
+            good_idx = {idx for cc, idx in vc} - {idx for cc, idx in vc if not (cc.get('fresh') is True or cc.get('date') is True)}
+            vals = [v for v, _ in tt['targets']]
+            for v, tg in tt['targets']:
+                if v in good_idx:
+                    accept.add((i, tg))
+                    reasons[(i, tg)] = 'the year was downloaded during this run (variant of a flag enum)'
+            rest = {idx for cc, idx in vc} - set(vals)
+            if rest and rest <= good_idx:
+                accept.add((i, tt['otherwise']))
+                reasons[(i, tt['otherwise'])] = 'the year was downloaded during this run (variant of a flag enum)'
         n_ret = 0
         reach_plain = fn.reachable_avoiding_edges(g.bb, accept)
         for i, b in fn.blocks.items():
